@@ -38,6 +38,7 @@ void cv_pentagon_strata(CellVec *c, int res, int k);    /* k-disks of the 12 pen
 void cv_random_cells(CellVec *c, int res, int n);       /* uniform digits (valid cells) */
 void cv_seam_cells(CellVec *c, int res, int nPerEdge);  /* cells along icosahedron edges */
 void cv_sparse_digit_cells(CellVec *c, int res, int quick); /* all digits 0 except one / trailing zeros after a random prefix */
+void cv_sparse_digit_sample(CellVec *c, int res, int n);  /* n cells drawn from cv_sparse_digit_cells (always including long zero runs) */
 void cv_polar_cells(CellVec *c, int res);               /* the cells containing the poles and their neighbours */
 void cv_antimeridian_cells(CellVec *c, int res, int n); /* cells on lng = +-pi at n latitudes, with neighbours */
 void cv_icosa_band_cells(CellVec *c, int res, int nT);  /* cells 1e-9..3e-3 rad either side of the 30 icosahedron edges (midpoints, ends, random) */
